@@ -35,6 +35,8 @@ func runC17(c *Ctx) {
 	resultAliasRules(c, "C17")
 	// a buffer handed to NewWriterBuffer stays the caller's beyond its length
 	writerGrowRules(c, "C17")
+	// message payloads returned by the read helpers are memory of their own
+	helperReadMessageRules(c, "C17")
 }
 
 func c17UnsafeViews(c *Ctx) {
